@@ -9,7 +9,17 @@ with budget `N` entered with `currentIteration = cur0`; every run crem itself st
 `cur0 = 0` (fresh clone), which is what the theorems are stated for (`rerun_single_iteration`
 records what the code does otherwise).  All `N`, all starting temperatures and cooling factors
 (in any monoid for the closed form, any ordered semiring for monotonicity), any number of
-observers, a panic injected at any iteration.
+observers, a panic injected wherever foreign code runs: in the explorer's `Initialise`,
+`TryRandomChange`, `CoolDown` (before or after the temperature was multiplied), `TearDown`, while
+the finish event's attributes are built, or in the callback of any observer at any of the four
+notify points.
+
+How "a finish event carrying the result" is modelled: `Event.finishedAnnealing k T` carries the
+iteration counter and the temperature; by `trace_shape` it is sent after exactly `N`
+`TryRandomChange`/`CoolDown` pairs and before the teardown.  The payload crem attaches to it (the
+compressed final model of the Kirkpatrick explorer, the solution archive of the Suppapitnarm
+explorer) is the explorer's state at that moment; that part is outside the model (the explorer is
+abstract here) and is checked directly on the implementation by the `anneal-trace` suite.
 
 Every `theorem` in this file is audited by `./check C07` (`#print axioms`).
 -/
@@ -31,7 +41,7 @@ theorem trace_shape (N : Nat) (T0 a : α) :
     (anneal N 0 T0 a none).outcome = .returned ∧
     (anneal N 0 T0 a none).currentIteration = N ∧
     (anneal N 0 T0 a none).temperature = temp T0 a N := by
-  rw [anneal_complete N T0 a none (by simp) (by simp [fires])]
+  rw [anneal_complete N T0 a none (Or.inl rfl)]
   simp
 
 /-- ... and what `iterations` is, one step at a time (so the shape can be read without
@@ -49,7 +59,7 @@ theorem zero_budget (T0 a : α) :
     (anneal 0 0 T0 a none).events =
       [.explorerInitialise, .startedAnnealing T0, .finishedAnnealing 0 T0, .explorerTearDown] ∧
     (anneal 0 0 T0 a none).outcome = .returned := by
-  simp [anneal]
+  simp [anneal, observerAt, finish]
 
 /-- Exactly `N` iterations: `N` calls of `TryRandomChange`, `N` started-iteration and `N`
 finished-iteration events, one finish event. -/
@@ -67,35 +77,26 @@ theorem exact_budget (N : Nat) (T0 a : α) :
 any panic site). -/
 theorem anneal_fuel_sufficient (N cur0 : Nat) (T0 a : α) (p : Option PanicSite) :
     (anneal N cur0 T0 a p).outcome ≠ .outOfFuel := by
+  have hfin : ∀ pre cur T, (finish p pre cur T : Result α).outcome ≠ .outOfFuel := by
+    intro pre cur T
+    unfold finish
+    split
+    · simp
+    · split
+      · simp
+      · dsimp only; split <;> simp
   unfold anneal
   split
   · simp
   · split
     · simp
-    · rename_i hinit hN
-      -- decide which of the three loop lemmas applies
-      by_cases hlt : cur0 < N
-      · -- at least one iteration is within budget
-        by_cases hf : ∃ k, 1 ≤ k ∧ k ≤ N - cur0 ∧ fires p k
-        · obtain ⟨k, hk1, hk2, hk | hk⟩ := hf
-          · subst hk
-            rw [loop_panic_try N a k (k - 1) (N - cur0 + 1) 0 cur0 T0 (by omega) (by omega) (by omega)]
-            simp
-          · subst hk
-            rw [loop_panic_cool N a k (k - 1) (N - cur0 + 1) 0 cur0 T0 (by omega) (by omega) (by omega)]
-            simp
-        · rw [loop_complete N a p (N - cur0 - 1) (N - cur0 + 1) 0 cur0 T0 (by omega) (by omega)
-            (fun k hk1 hk2 hk => hf ⟨k, by omega, by omega, hk⟩)]
-          simp
-      · -- counter already at/beyond the budget: one iteration (or a panic in it)
-        have hfuel : N - cur0 + 1 = 0 + 1 := by omega
-        rw [hfuel]
-        by_cases h1 : p = some (.tryRandomChange 1)
-        · subst h1; simp [loop]
-        · by_cases h2 : p = some (.coolDown 1)
-          · subst h2; simp [loop]
-          · have h3 : cur0 + 1 ≥ N := by omega
-            simp [loop, h1, h2, h3]
+    · split
+      · exact hfin _ _ _
+      · have hf := loop_not_outOfFuel N a p (N - cur0 + 1) 0 cur0 T0 (by omega) (by omega)
+        rcases hloop : loop N a p (N - cur0 + 1) 0 cur0 T0 with ⟨evs, ⟨cur, T⟩ | ⟨cur, T⟩ | ⟨cur, T⟩⟩
+        · exact hfin _ _ _
+        · simp [conclude]
+        · rw [hloop] at hf; exact absurd rfl (hf cur T)
 
 /-- A panic in `TryRandomChange` of iteration `j` (`1 ≤ j ≤ N`): the complete iterations
 `1..j-1`, the started-iteration event of `j`, the failing call, then the explorer is torn down
@@ -107,35 +108,49 @@ theorem panic_trace (N j : Nat) (T0 a : α) (hj1 : 1 ≤ j) (hjN : j ≤ N) :
     (anneal N 0 T0 a (some (.tryRandomChange j))).outcome = .repanicked ∧
     (anneal N 0 T0 a (some (.tryRandomChange j))).events.countP Event.isFinishedAnnealing = 0 ∧
     (anneal N 0 T0 a (some (.tryRandomChange j))).events.countP Event.isFinishedIteration = j - 1 := by
-  have hN : N ≠ 0 := by omega
-  have hl := loop_panic_try N a j (j - 1) (N - 0 + 1) 0 0 T0 (by omega) (by omega) (by omega)
-  have hj : 0 + (j - 1) + 1 = j := by omega
   obtain ⟨-, -, h3, h4⟩ := countP_iterations T0 a (j - 1)
-  simp only [anneal, hN, if_false, hl, ← iterations_eq_from, hj]
+  rw [anneal_iteration_panic N j T0 a (some (.tryRandomChange j)) _ _ hj1 hjN (if_pos rfl)]
   simp [List.countP_append, h3, h4, Event.isFinishedAnnealing, Event.isFinishedIteration]
 
-/-- The same for a panic in `CoolDown` of iteration `j`. -/
+/-- The same for a panic in `CoolDown` of iteration `j` *before* the coolant multiplied the
+temperature: the coolant is left at the temperature of the start of the iteration. -/
 theorem panic_trace_coolDown (N j : Nat) (T0 a : α) (hj1 : 1 ≤ j) (hjN : j ≤ N) :
     (anneal N 0 T0 a (some (.coolDown j))).events =
       [.explorerInitialise, .startedAnnealing T0] ++ iterations T0 a (j - 1) ++
         [.startedIteration j (temp T0 a (j - 1)), .tryRandomChange, .coolDown, .explorerTearDown] ∧
     (anneal N 0 T0 a (some (.coolDown j))).outcome = .repanicked ∧
-    (anneal N 0 T0 a (some (.coolDown j))).events.countP Event.isFinishedAnnealing = 0 := by
-  have hN : N ≠ 0 := by omega
-  have hl := loop_panic_cool N a j (j - 1) (N - 0 + 1) 0 0 T0 (by omega) (by omega) (by omega)
-  have hj : 0 + (j - 1) + 1 = j := by omega
+    (anneal N 0 T0 a (some (.coolDown j))).events.countP Event.isFinishedAnnealing = 0 ∧
+    (anneal N 0 T0 a (some (.coolDown j))).temperature = temp T0 a (j - 1) := by
   obtain ⟨-, -, -, h4⟩ := countP_iterations T0 a (j - 1)
-  simp only [anneal, hN, if_false, hl, ← iterations_eq_from, hj]
+  rw [anneal_iteration_panic N j T0 a (some (.coolDown j)) _ _ hj1 hjN (if_pos rfl)]
   simp [List.countP_append, h4, Event.isFinishedAnnealing]
+
+/-- … and for a panic in `CoolDown` of iteration `j` *after* the multiplication (what the
+Kirkpatrick explorer's `CoolDown` does when one of its own observers panics on the "Cooling"
+event): the same events, but the coolant is left at the cooled temperature `T_j`. -/
+theorem panic_trace_coolDownAfter (N j : Nat) (T0 a : α) (hj1 : 1 ≤ j) (hjN : j ≤ N) :
+    (anneal N 0 T0 a (some (.coolDownAfter j))).events =
+      [.explorerInitialise, .startedAnnealing T0] ++ iterations T0 a (j - 1) ++
+        [.startedIteration j (temp T0 a (j - 1)), .tryRandomChange, .coolDown, .explorerTearDown] ∧
+    (anneal N 0 T0 a (some (.coolDownAfter j))).outcome = .repanicked ∧
+    (anneal N 0 T0 a (some (.coolDownAfter j))).events.countP Event.isFinishedAnnealing = 0 ∧
+    (anneal N 0 T0 a (some (.coolDownAfter j))).temperature = temp T0 a j := by
+  obtain ⟨j', rfl⟩ : ∃ j', j = j' + 1 := ⟨j - 1, by omega⟩
+  obtain ⟨-, -, -, h4⟩ := countP_iterations T0 a j'
+  rw [anneal_iteration_panic N (j' + 1) T0 a (some (.coolDownAfter (j' + 1))) _ _ hj1 hjN (if_pos rfl)]
+  simp only [Nat.add_sub_cancel]
+  simp [List.countP_append, h4, Event.isFinishedAnnealing, temp]
 
 /-- A panic site beyond the budget (or "iteration 0") never fires: the run is the normal one. -/
 theorem panic_beyond_budget (N j : Nat) (T0 a : α) (hj : j = 0 ∨ N < j) :
     anneal N 0 T0 a (some (.tryRandomChange j)) = anneal N 0 T0 a none ∧
-    anneal N 0 T0 a (some (.coolDown j)) = anneal N 0 T0 a none := by
-  rw [anneal_complete N T0 a none (by simp) (by simp [fires])]
-  constructor
-  · exact anneal_complete N T0 a _ (by simp) (by intro k h1 h2; simp [fires]; omega)
-  · exact anneal_complete N T0 a _ (by simp) (by intro k h1 h2; simp [fires]; omega)
+    anneal N 0 T0 a (some (.coolDown j)) = anneal N 0 T0 a none ∧
+    anneal N 0 T0 a (some (.coolDownAfter j)) = anneal N 0 T0 a none ∧
+    (∀ i, anneal N 0 T0 a (some (.notify (.startedIteration j) i)) = anneal N 0 T0 a none) ∧
+    (∀ i, anneal N 0 T0 a (some (.notify (.finishedIteration j) i)) = anneal N 0 T0 a none) := by
+  rw [anneal_complete N T0 a none (Or.inl rfl)]
+  refine ⟨?_, ?_, ?_, fun i => ?_, fun i => ?_⟩ <;>
+    exact anneal_complete N T0 a _ (Or.inr ⟨j, by simp [fires, PanicSite.iteration?], hj⟩)
 
 /-- Quirk recorded, not claimed as intended: if `Initialise()` of the explorer itself panics the
 panic is re-raised *without* a teardown (the `defer TearDown()` is registered after it). -/
@@ -143,6 +158,110 @@ theorem panic_in_initialise (N cur0 : Nat) (T0 a : α) :
     (anneal N cur0 T0 a (some .initialise)).events = [.explorerInitialise] ∧
     (anneal N cur0 T0 a (some .initialise)).outcome = .repanicked := by
   simp [anneal]
+
+/-- An observer (number `i` in the notifier's list) panics on the start event: observers up to
+`i` were handed the event (marker `observerPanic i`), no iteration happens, the explorer is
+still torn down, the panic is re-raised.  Any budget, any entry counter. -/
+theorem observer_panic_started_annealing (N cur0 i : Nat) (T0 a : α) :
+    anneal N cur0 T0 a (some (.notify .startedAnnealing i)) =
+      ⟨[.explorerInitialise, .startedAnnealing T0, .observerPanic i, .explorerTearDown],
+        .repanicked, cur0, T0⟩ := by
+  simp [anneal, observerAt]
+
+/-- An observer panics on the started-iteration event of iteration `j` (`1 ≤ j ≤ N`): complete
+iterations `1..j-1`, the event, the marker, teardown, re-panic; `TryRandomChange` of iteration `j`
+is not called, no finish event. -/
+theorem observer_panic_started_iteration (N j i : Nat) (T0 a : α) (hj1 : 1 ≤ j) (hjN : j ≤ N) :
+    (anneal N 0 T0 a (some (.notify (.startedIteration j) i))).events =
+      [.explorerInitialise, .startedAnnealing T0] ++ iterations T0 a (j - 1) ++
+        [.startedIteration j (temp T0 a (j - 1)), .observerPanic i, .explorerTearDown] ∧
+    (anneal N 0 T0 a (some (.notify (.startedIteration j) i))).outcome = .repanicked ∧
+    (anneal N 0 T0 a (some (.notify (.startedIteration j) i))).events.countP Event.isFinishedAnnealing = 0 ∧
+    (anneal N 0 T0 a (some (.notify (.startedIteration j) i))).events.countP Event.isTry = j - 1 := by
+  obtain ⟨h1, -, -, h4⟩ := countP_iterations T0 a (j - 1)
+  rw [anneal_iteration_panic N j T0 a (some (.notify (.startedIteration j) i)) _ _ hj1 hjN (if_pos rfl)]
+  simp [List.countP_append, h1, h4, Event.isFinishedAnnealing, Event.isTry]
+
+/-- An observer panics on the finished-iteration event of iteration `j`: the iteration's two
+explorer calls happened (the coolant is at `T_j`), the event, the marker, teardown, re-panic; no
+further iteration, no finish event. -/
+theorem observer_panic_finished_iteration (N j i : Nat) (T0 a : α) (hj1 : 1 ≤ j) (hjN : j ≤ N) :
+    (anneal N 0 T0 a (some (.notify (.finishedIteration j) i))).events =
+      [.explorerInitialise, .startedAnnealing T0] ++ iterations T0 a j ++
+        [.observerPanic i, .explorerTearDown] ∧
+    (anneal N 0 T0 a (some (.notify (.finishedIteration j) i))).outcome = .repanicked ∧
+    (anneal N 0 T0 a (some (.notify (.finishedIteration j) i))).events.countP Event.isFinishedAnnealing = 0 ∧
+    (anneal N 0 T0 a (some (.notify (.finishedIteration j) i))).events.countP Event.isTry = j ∧
+    (anneal N 0 T0 a (some (.notify (.finishedIteration j) i))).temperature = temp T0 a j := by
+  obtain ⟨j', rfl⟩ : ∃ j', j = j' + 1 := ⟨j - 1, by omega⟩
+  obtain ⟨h1, -, -, h4⟩ := countP_iterations T0 a j'
+  rw [anneal_iteration_panic N (j' + 1) T0 a (some (.notify (.finishedIteration (j' + 1)) i)) _ _ hj1 hjN
+    (if_pos rfl)]
+  simp only [Nat.add_sub_cancel]
+  refine ⟨?_, ?_, ?_, ?_, ?_⟩
+  · simp [iterations_succ, iterationEvents]
+  · simp
+  · simp [List.countP_append, h4, Event.isFinishedAnnealing]
+  · simp [List.countP_append, List.countP_cons, h1, Event.isTry]
+  · simp [temp]
+
+/-- An observer panics on the finish event: all `N` iterations happened, the finish event was
+sent (observers up to `i` have it), teardown, re-panic. -/
+theorem observer_panic_finished_annealing (N i : Nat) (T0 a : α) :
+    anneal N 0 T0 a (some (.notify .finishedAnnealing i)) =
+      ⟨[.explorerInitialise, .startedAnnealing T0] ++ iterations T0 a N ++
+          [.finishedAnnealing N (temp T0 a N), .observerPanic i, .explorerTearDown],
+        .repanicked, N, temp T0 a N⟩ := by
+  rw [anneal_loop_complete N T0 a _ (by simp) (by simp [observerAt])
+    (by intro k _ _; simp [fires, PanicSite.iteration?])]
+  simp [finish, observerAt]
+
+/-- The explorer panics while the attributes of the finish event are put together
+(`EventAttributes(FinishedAnnealing)` compresses the model): all `N` iterations happened, NO finish
+event reaches anybody, teardown, re-panic. -/
+theorem panic_finish_attributes (N : Nat) (T0 a : α) :
+    anneal N 0 T0 a (some .finishAttributes) =
+      ⟨[.explorerInitialise, .startedAnnealing T0] ++ iterations T0 a N ++ [.explorerTearDown],
+        .repanicked, N, temp T0 a N⟩ ∧
+    (anneal N 0 T0 a (some .finishAttributes)).events.countP Event.isFinishedAnnealing = 0 := by
+  obtain ⟨-, -, -, h4⟩ := countP_iterations T0 a N
+  rw [anneal_loop_complete N T0 a _ (by simp) (by simp [observerAt])
+    (by intro k _ _; simp [fires, PanicSite.iteration?])]
+  simp [finish, List.countP_append, h4, Event.isFinishedAnnealing]
+
+/-- `TearDown()` itself panics (it is a deferred call, so this is after the finish event): the
+events are those of the normal run; `handlePanicRecovery` re-raises the panic. -/
+theorem panic_in_teardown (N : Nat) (T0 a : α) :
+    (anneal N 0 T0 a (some .tearDown)).events = (anneal N 0 T0 a none).events ∧
+    (anneal N 0 T0 a (some .tearDown)).outcome = .repanicked := by
+  rw [anneal_complete N T0 a none (Or.inl rfl),
+    anneal_loop_complete N T0 a _ (by simp) (by simp [observerAt])
+      (by intro k _ _; simp [fires, PanicSite.iteration?])]
+  simp [finish, observerAt]
+
+/-- Teardown still runs, exactly once and as the very last thing, in EVERY run in which the
+explorer's `Initialise()` returned: any budget, any entry counter, any panic site. -/
+theorem teardown_always (N cur0 : Nat) (T0 a : α) (p : Option PanicSite) (hp : p ≠ some .initialise) :
+    (anneal N cur0 T0 a p).events.getLast? = some .explorerTearDown ∧
+    (anneal N cur0 T0 a p).events.countP Event.isTearDown = 1 :=
+  anneal_teardown N cur0 T0 a p hp
+
+/-- A run without an injected panic returns — any budget, any entry counter (panics come from
+foreign code only: `Anneal()` itself never raises one). -/
+theorem no_panic_returns (N cur0 : Nat) (T0 a : α) :
+    (anneal N cur0 T0 a none).outcome = .returned := by
+  have h := anneal_fuel_sufficient N cur0 T0 a none
+  have hn := anneal_eq N cur0 T0 a (p := none) (by simp) rfl
+  rw [hn] at h ⊢
+  split
+  · simp [finish, observerAt]
+  · rename_i hN
+    simp only [hN, if_false] at h
+    rcases hloop : loop N a none (N - cur0 + 1) 0 cur0 T0 with ⟨evs, ⟨cur, T⟩ | ⟨cur, T⟩ | ⟨cur, T⟩⟩
+    · simp [conclude, finish, observerAt]
+    · have hnp := loop_none_not_panicked N a (N - cur0 + 1) 0 cur0 T0 cur T
+      rw [hloop] at hnp; exact absurd rfl hnp
+    · rw [hloop] at h; simp [conclude] at h
 
 /-- Quirk recorded: `Anneal()` does not reset `currentIteration`, so a second `Anneal()` on the
 same annealer object (counter already at the budget `N > 0`) performs exactly one iteration,
@@ -153,24 +272,123 @@ theorem rerun_single_iteration (N cur0 : Nat) (T0 a : α) (hN : N ≠ 0) (h : N 
        .coolDown, .finishedIteration (cur0 + 1) (T0 * a), .finishedAnnealing (cur0 + 1) (T0 * a),
        .explorerTearDown] := by
   have hfuel : N - cur0 + 1 = 0 + 1 := by omega
-  simp only [anneal, hN, if_false, hfuel, reduceCtorEq, loop_overrun N a 0 0 cur0 T0 (by omega)]
-  simp [iterationEvents]
+  rw [anneal_eq N cur0 T0 a (p := none) (by simp) rfl]
+  simp only [hN, if_false, hfuel, loop_overrun N a none 0 0 cur0 T0 (by omega) (by simp [fires])]
+  simp [conclude, finish, observerAt, iterationEvents]
+
+/-- … and a re-entry in mid-run (`0 < cur0 < N`, e.g. a second `Anneal()` after a panicking
+one): the run resumes the count, performs the remaining `N - cur0` iterations numbered
+`cur0+1 … N`, cooling from whatever temperature the coolant was left at, and finishes with `N`.
+(`iterationsFrom a cur0 T0 m` = iterations `cur0+1 … cur0+m` entered at temperature `T0`.) -/
+theorem reentry_midrun (N cur0 : Nat) (T0 a : α) (h : cur0 < N) :
+    anneal N cur0 T0 a none =
+      ⟨[.explorerInitialise, .startedAnnealing T0] ++ iterationsFrom a cur0 T0 (N - cur0) ++
+          [.finishedAnnealing N (temp T0 a (N - cur0)), .explorerTearDown],
+        .returned, N, temp T0 a (N - cur0)⟩ ∧
+    (iterationsFrom a cur0 T0 (N - cur0)).countP Event.isTry = N - cur0 := by
+  have hN : N ≠ 0 := by omega
+  obtain ⟨m, hm⟩ : ∃ m, N - cur0 = m + 1 := ⟨N - cur0 - 1, by omega⟩
+  have hl := loop_complete N a none m (N - cur0 + 1) 0 cur0 T0 (by omega) (by omega)
+    (by intro k _ _; simp [fires])
+  refine ⟨?_, countP_isTry_iterationsFrom a cur0 T0 _⟩
+  rw [anneal_eq N cur0 T0 a (p := none) (by simp) rfl]
+  simp only [hN, if_false]
+  rw [hl, hm]
+  simp [conclude, finish, observerAt]
+
+/-- Prefix theorem: whatever the injected panic (any site, `Initialise` included), what the run
+sends to the observers is an initial part of what the undisturbed run with the same budget, entry
+counter, starting temperature and cooling factor sends.  Hence every clause about the events of
+a normal run that is inherited by initial parts — the order of the events, the iteration numbers,
+the temperature each event carries, "never increases" — holds of panicking runs too
+(`panicking_run_event_temperatures`, `panicking_run_temperatures_antitone`). -/
+theorem panicking_run_prefix (N cur0 : Nat) (T0 a : α) (p : Option PanicSite) :
+    (anneal N cur0 T0 a p).events.filter Event.observable <+:
+      (anneal N cur0 T0 a none).events.filter Event.observable :=
+  anneal_prefix N cur0 T0 a p
 
 end shape
 
 section observers
 variable {α : Type}
 
-/-- Any number of observers: each of the `n` observers receives exactly the observable events of
-the run, in order (events being immutable values in the model — see finding D21 for the Go
-notifier, whose observers share the event's attribute array). -/
-theorem every_observer_same_trace (n i : Nat) (hi : i < n) (evs : List (Event α)) :
+/-- Any number of observers: each of the `n` observers receives exactly the observable events, in
+order, of any event list in which no delivery was cut short by a panicking observer (events being
+immutable values in the model — see finding D21 for the Go notifier, whose observers share the
+event's attribute array).  This is a statement about the notifier's loop alone; the run-level
+statements are `every_observer_same_trace_run` and `observer_panic_delivery`. -/
+theorem every_observer_same_trace (n i : Nat) (hi : i < n) (evs : List (Event α))
+    (h : ∀ e ∈ evs, e.isObserverPanic = false) :
     receivedBy i (deliveries n evs) = evs.filter Event.observable :=
-  receivedBy_deliveries_aux n i hi _
+  receivedBy_deliveries_markerFree n i hi evs h
+
+/-- … and they receive them interleaved as the notifier's loop dictates: event by event, each
+event to observers `0, 1, …, n-1` in that order (this is the sequence the correspondence suite
+compares with the order in which its recorders are actually called). -/
+theorem delivery_order (n : Nat) (evs : List (Event α)) (h : ∀ e ∈ evs, e.isObserverPanic = false) :
+    deliveries n evs =
+      (evs.filter Event.observable).flatMap (fun e => (List.range n).map (fun i => (i, e))) :=
+  deliveries_markerFree n evs h
 
 /-- with no observer nothing is delivered -/
 theorem no_observer_no_delivery (evs : List (Event α)) : deliveries 0 evs = [] := by
-  simp [deliveries]
+  induction evs with
+  | nil => rfl
+  | cons e l ih =>
+    have : reach 0 l = 0 := by
+      cases l with
+      | nil => rfl
+      | cons x l => cases x <;> simp [reach]
+    simp [deliveries, this, ih]
+
+variable [Mul α]
+
+/-- Run level: in every run (any budget, any entry counter) whose injected panic — if any — is
+not inside an observer, each of the `n` observers receives exactly the observable events of the
+run, in order; in particular all observers receive the same trace, also in runs that panic in the
+explorer. -/
+theorem every_observer_same_trace_run (N cur0 : Nat) (T0 a : α) (p : Option PanicSite)
+    (hp : ∀ pt j, p ≠ some (.notify pt j)) (n i : Nat) (hi : i < n) :
+    receivedBy i (deliveries n (anneal N cur0 T0 a p).events) =
+      (anneal N cur0 T0 a p).events.filter Event.observable :=
+  receivedBy_deliveries_markerFree n i hi _ (anneal_markerFree N cur0 T0 a hp)
+
+/-- Run level, observer `j` panics at notify point `pt` (any budget, any entry counter, any
+number `n` of observers): observers `0 … j` — the panicking one included, its callback was entered —
+received every observable event of the run; observers after `j` received all of them but the
+last one (the event on which `j` panicked).  If the point is never reached the run returns and
+everybody received everything. -/
+theorem observer_panic_delivery (N cur0 : Nat) (T0 a : α) (pt : NotifyPoint) (j n i : Nat) (hi : i < n) :
+    receivedBy i (deliveries n (anneal N cur0 T0 a (some (.notify pt j))).events) =
+      if (anneal N cur0 T0 a (some (.notify pt j))).outcome = .repanicked ∧ j < i then
+        ((anneal N cur0 T0 a (some (.notify pt j))).events.filter Event.observable).dropLast
+      else (anneal N cur0 T0 a (some (.notify pt j))).events.filter Event.observable := by
+  rcases anneal_notify N cur0 T0 a pt j with ⟨h1, h2⟩ | ⟨h1, pre, e, h2, h3, h4⟩
+  · rw [receivedBy_deliveries_markerFree n i hi _ h2, h1]
+    simp
+  · have hpost : MarkerFree ([.explorerTearDown] : List (Event α)) := by
+      simp [MarkerFree, Event.isObserverPanic]
+    have hevs : pre ++ [e, .observerPanic j, .explorerTearDown] =
+        pre ++ e :: .observerPanic j :: [.explorerTearDown] := rfl
+    rw [h2, h1, hevs, receivedBy_deliveries_panic n i j hi e _ h4 hpost pre h3]
+    have hm : (Event.observerPanic j : Event α).observable = false := rfl
+    have hd : (Event.explorerTearDown : Event α).observable = false := rfl
+    have hf : (pre ++ e :: .observerPanic j :: [.explorerTearDown]).filter Event.observable =
+        pre.filter Event.observable ++ [e] := by
+      simp [List.filter_append, h4, hm, hd]
+    rw [hf]
+    by_cases hji : j < i
+    · have : ¬ i ≤ j := by omega
+      simp [hji, this, hd]
+    · have : i ≤ j := by omega
+      simp [hji, this, hd]
+
+/-- … and an observer that does not exist cannot panic: with `n` observers attached a notify
+site for observer `j ≥ n` is no site at all (this is how the driver reads a site). -/
+theorem absent_observer_never_panics (n j : Nat) (pt : NotifyPoint) (h : n ≤ j) :
+    effectiveSite n (some (.notify pt j)) = none := by
+  have : ¬ j < n := by omega
+  simp [effectiveSite, this]
 
 end observers
 
@@ -248,7 +466,31 @@ theorem trace_temperatures_antitone (N : Nat) (T0 a : α) (hT : 0 ≤ T0) (ha : 
     subst hy
     exact temp_antitone T0 a hT ha ha1 hj
 
+/-- … and in a run with an injected panic at any site: the temperatures carried by the events
+that were sent never increase either. -/
+theorem panicking_run_temperatures_antitone (N : Nat) (T0 a : α) (p : Option PanicSite)
+    (hT : 0 ≤ T0) (ha : 0 ≤ a) (ha1 : a ≤ 1) :
+    ((anneal N 0 T0 a p).events.filterMap Event.temperature?).Pairwise
+      (fun earlier later => later ≤ earlier) := by
+  have h := trace_temperatures_antitone N T0 a hT ha ha1
+  rw [filterMap_temperature_filter] at h ⊢
+  exact h.sublist ((anneal_prefix N 0 T0 a p).sublist.filterMap _)
+
 end temperature
+
+/-- Every event a run with an injected panic (at any site) sends carries the iteration number and
+the temperature `T0 * a^k` the normal run's event carries: the clauses of `event_temperatures`,
+transferred by the prefix theorem. -/
+theorem panicking_run_event_temperatures {α : Type} [Monoid α] (N : Nat) (T0 a : α) (p : Option PanicSite) :
+    ∀ e ∈ (anneal N 0 T0 a p).events, e.observable = true →
+      (∀ k T, e = .startedIteration k T → 1 ≤ k ∧ k ≤ N ∧ T = T0 * a ^ (k - 1)) ∧
+      (∀ k T, e = .finishedIteration k T → 1 ≤ k ∧ k ≤ N ∧ T = T0 * a ^ k) ∧
+      (∀ k T, e = .finishedAnnealing k T → k = N ∧ T = T0 * a ^ N) ∧
+      (∀ T, e = .startedAnnealing T → T = T0) := by
+  intro e he hobs
+  have hmem : e ∈ (anneal N 0 T0 a none).events :=
+    (List.mem_filter.mp ((anneal_prefix N 0 T0 a p).subset (List.mem_filter.mpr ⟨he, hobs⟩))).1
+  exact event_temperatures N T0 a e hmem
 
 /-! Non-vacuity and sanity examples (tests, labelled as such). -/
 
@@ -268,5 +510,41 @@ example : temp (8 : ℚ) (1/2) 3 = 1 := by norm_num [temp]
 example : ¬ temp (8 : ℚ) 2 1 ≤ temp (8 : ℚ) 2 0 := by norm_num [temp]
 example : receivedBy 1 (deliveries 3 (anneal 1 0 (8 : Nat) 1 none).events) =
     [.startedAnnealing 8, .startedIteration 1 8, .finishedIteration 1 8, .finishedAnnealing 1 8] := by decide
+
+/-- observer 1 of 3 panics on the started-iteration event of iteration 2 … -/
+example : (anneal 3 0 (8 : Nat) 1 (some (.notify (.startedIteration 2) 1))).events =
+    [.explorerInitialise, .startedAnnealing 8,
+     .startedIteration 1 8, .tryRandomChange, .coolDown, .finishedIteration 1 8,
+     .startedIteration 2 8, .observerPanic 1, .explorerTearDown] := by decide
+/-- … observers 0 and 1 were handed that event, observer 2 was not -/
+example :
+    let evs := (anneal 3 0 (8 : Nat) 1 (some (.notify (.startedIteration 2) 1))).events
+    receivedBy 0 (deliveries 3 evs) =
+      [.startedAnnealing 8, .startedIteration 1 8, .finishedIteration 1 8, .startedIteration 2 8] ∧
+    receivedBy 1 (deliveries 3 evs) = receivedBy 0 (deliveries 3 evs) ∧
+    receivedBy 2 (deliveries 3 evs) =
+      [.startedAnnealing 8, .startedIteration 1 8, .finishedIteration 1 8] := by decide
+/-- the interleaving the shared sequence log of the suite is compared with -/
+example : deliveries 2 (anneal 1 0 (8 : Nat) 1 none).events =
+    [(0, .startedAnnealing 8), (1, .startedAnnealing 8), (0, .startedIteration 1 8), (1, .startedIteration 1 8),
+     (0, .finishedIteration 1 8), (1, .finishedIteration 1 8),
+     (0, .finishedAnnealing 1 8), (1, .finishedAnnealing 1 8)] := by decide
+/-- a `CoolDown` panic before / after the multiplication leaves different temperatures behind -/
+example : (anneal 3 0 (8 : Nat) 2 (some (.coolDown 2))).temperature = 16 ∧
+    (anneal 3 0 (8 : Nat) 2 (some (.coolDownAfter 2))).temperature = 32 := by decide
+/-- a panic while the finish attributes are built: no finish event, teardown, re-panic -/
+example : (anneal 1 0 (8 : Nat) 1 (some .finishAttributes)).events =
+    [.explorerInitialise, .startedAnnealing 8, .startedIteration 1 8, .tryRandomChange, .coolDown,
+     .finishedIteration 1 8, .explorerTearDown] ∧
+    (anneal 1 0 (8 : Nat) 1 (some .finishAttributes)).outcome = .repanicked := by decide
+/-- re-entry in mid-run: counter 2 of budget 5, three more iterations numbered 3, 4, 5 -/
+example : (anneal 5 2 (8 : Nat) 1 none).events.filter Event.isStartedIteration =
+    [.startedIteration 3 8, .startedIteration 4 8, .startedIteration 5 8] := by decide
+/-- the prefix theorem is about a proper prefix when the panic fires -/
+example : (anneal 2 0 (8 : Nat) 1 (some (.tryRandomChange 2))).events.filter Event.observable =
+    [.startedAnnealing 8, .startedIteration 1 8, .finishedIteration 1 8, .startedIteration 2 8] ∧
+    (anneal 2 0 (8 : Nat) 1 none).events.filter Event.observable =
+    [.startedAnnealing 8, .startedIteration 1 8, .finishedIteration 1 8, .startedIteration 2 8,
+     .finishedIteration 2 8, .finishedAnnealing 2 8] := by decide
 
 end Crem.Anneal
